@@ -22,6 +22,12 @@ def load_mutants():
     for fn in sorted(os.listdir(d)):
         if fn.endswith('.json'):
             ms.extend(json.load(open(os.path.join(d, fn))))
+    # independently written behaviour-preserving refactorings (sub-agents), kept as patches: must stay silent
+    bd = os.path.join(d, 'benign_patches')
+    if os.path.isdir(bd):
+        for fn in sorted(os.listdir(bd)):
+            if fn.endswith('.diff'):
+                ms.append({'id': 'refac:' + fn[:-5], 'props': [], 'benign': True, 'patch': os.path.join(bd, fn), 'expect': []})
     # independently written breaking changes (sub-agents), kept as patches
     sd = os.path.join(VERIF, 'seeded')
     if os.path.isdir(sd):
